@@ -180,6 +180,7 @@ impl FeatureState for TravelLimitState {
                         .iter()
                         // consider only jobs with time windows
                         .filter_map(|time_span| time_span.as_time_window())
+                        .filter(|tw| tw.end < Float::MAX)
                         .map(move |tw| (tw, location))
                 })
             })
